@@ -15,9 +15,9 @@ def run(tier, seed):
     try:
         mc = xc.mc_bv(wd, tier)
         q = tier == "quick"
-        res = xc.judge(rep, "data", 16 if q else 300, seed + 1000, wd, "d", OWNS, jobs=8 if q else 14)
+        res = xc.judge(rep, "data", 16 if q else 1000, seed + 1000, wd, "d", OWNS, jobs=8 if q else 14)
         for fam in ("flow", "stack"):
-            xc.judge(rep, fam, 4 if q else 40, seed + 1000, wd, fam[0], OWNS, res=res)
+            xc.judge(rep, fam, 4 if q else 120, seed + 1000, wd, fam[0], OWNS, res=res)
         rep.cov["samples"] = [{"families": ["data", "flow", "stack"], "example": sorted(res.distinct)[:3]}]
         t8 = xc.table8(rep, wd, False, True, workers=8 if q else 14)
         rep.cov["exhaustive_8bit"] = {"spec_rows_from_tlc": t8["rows"], "form_variants": t8["variants"], "cases": t8["cases"],
